@@ -2153,7 +2153,7 @@ class BaseDocReader(LogMixin):
                 # '{http://www.w3.org/XML/1998/namespace}lang'
                 for key, lang in labelNameElement.items():
                     if key == XML_LANG:
-                        axisObject.labelNames[lang] = tostr(labelNameElement.text)
+                        axisObject.labelNames[lang] = tostr(labelNameElement.text or "")
             labelElement = axisElement.find(".labels")
             if labelElement is not None:
                 if "ordering" in labelElement.attrib:
@@ -2408,7 +2408,7 @@ class BaseDocReader(LogMixin):
             for familyNameElement in sourceElement.findall("familyname"):
                 for key, lang in familyNameElement.items():
                     if key == XML_LANG:
-                        familyName = familyNameElement.text
+                        familyName = familyNameElement.text or ""
                         sourceObject.setFamilyName(familyName, lang)
             designLocation, userLocation = self.locationFromElement(sourceElement)
             if userLocation:
@@ -2554,22 +2554,22 @@ class BaseDocReader(LogMixin):
         for styleNameElement in instanceElement.findall("stylename"):
             for key, lang in styleNameElement.items():
                 if key == XML_LANG:
-                    styleName = styleNameElement.text
+                    styleName = styleNameElement.text or ""
                     instanceObject.setStyleName(styleName, lang)
         for familyNameElement in instanceElement.findall("familyname"):
             for key, lang in familyNameElement.items():
                 if key == XML_LANG:
-                    familyName = familyNameElement.text
+                    familyName = familyNameElement.text or ""
                     instanceObject.setFamilyName(familyName, lang)
         for styleMapStyleNameElement in instanceElement.findall("stylemapstylename"):
             for key, lang in styleMapStyleNameElement.items():
                 if key == XML_LANG:
-                    styleMapStyleName = styleMapStyleNameElement.text
+                    styleMapStyleName = styleMapStyleNameElement.text or ""
                     instanceObject.setStyleMapStyleName(styleMapStyleName, lang)
         for styleMapFamilyNameElement in instanceElement.findall("stylemapfamilyname"):
             for key, lang in styleMapFamilyNameElement.items():
                 if key == XML_LANG:
-                    styleMapFamilyName = styleMapFamilyNameElement.text
+                    styleMapFamilyName = styleMapFamilyNameElement.text or ""
                     instanceObject.setStyleMapFamilyName(styleMapFamilyName, lang)
         designLocation, userLocation = self.locationFromElement(instanceElement)
         locationLabel = instanceElement.attrib.get("location")
